@@ -41,6 +41,7 @@ interface. Two subcommands:
 """
 
 import argparse
+import contextlib
 import io
 import os
 import sys
@@ -103,7 +104,10 @@ def make_ffi_from_sources(modulename, cdef, csrc):
 def generate_c_source(ffi):
     """Return the C source that :meth:`FFI.emit_c_code` would write."""
     output = io.StringIO()
-    ffi.emit_c_code(output)
+    # emit_c_code() prints a progress line ("generating ...") on stdout;
+    # it must not end up in front of the source when the output is '-'
+    with contextlib.redirect_stdout(sys.stderr):
+        ffi.emit_c_code(output)
     return output.getvalue()
 
 
